@@ -75,6 +75,8 @@ pub struct Recorder {
     /// keep out of the two known-finding classes (default); when false the histories are
     /// unrestricted - used to look for panics inside those classes, where wrong answers are known
     pub avoid: bool,
+    /// also log the implementation's own entry list / cursor (through the hooks) for the layer-S conformance check
+    pub sys: bool,
 }
 
 impl Recorder {
@@ -85,6 +87,7 @@ impl Recorder {
             next_id: 1,
             avoided: 0,
             avoid: true,
+            sys: false,
         }
     }
     fn emit(&mut self, v: Value) {
@@ -104,17 +107,31 @@ impl Recorder {
             Some(m) => board.legals_masked(bb_of(m)),
         };
         let mask: Vec<u8> = gen_mask.clone().unwrap_or_else(|| (0..64).collect());
-        self.emit(json!({"ev": "it_new", "id": id, "fen": board.to_string(), "all": all,
-                         "masked": gen_mask.is_some(), "mask": mask}));
+        let mut ev = json!({"ev": "it_new", "id": id, "fen": board.to_string(), "all": all,
+                            "masked": gen_mask.is_some(), "mask": mask});
+        if self.sys {
+            ev["sys"] = Self::sys_json(&gen);
+        }
+        self.emit(ev);
         Inst { id, gen, all, yielded: HashSet::new(), removed_dest: HashSet::new(), removed_mv: HashSet::new(), gen_mask, mask, done: false }
+    }
+
+    fn sys_json(gen: &MoveGen) -> Value {
+        let entries: Vec<Value> = gen.verif_entries().iter().map(|(s, d, p)| json!([s.to_u8(), bb_list(*d), p])).collect();
+        let (idx, left, mask) = gen.verif_cursor();
+        json!({"entries": entries, "idx": idx, "left": left, "mask": bb_list(mask)})
     }
 
     fn log_len(&mut self, it: &Inst) {
         let (lo, hi) = it.gen.size_hint();
         let len = it.gen.len();
         let empty = it.gen.is_empty();
-        self.emit(json!({"ev": "it_len", "id": it.id, "len": len, "empty": empty, "lo": lo,
-                         "hi": hi.map_or(-1i64, |h| h as i64)}));
+        let mut ev = json!({"ev": "it_len", "id": it.id, "len": len, "empty": empty, "lo": lo,
+                            "hi": hi.map_or(-1i64, |h| h as i64)});
+        if self.sys {
+            ev["sys"] = Self::sys_json(&it.gen);
+        }
+        self.emit(ev);
     }
 
     fn do_next(&mut self, it: &mut Inst) -> Option<u32> {
@@ -324,6 +341,7 @@ pub fn record_iter(opts: &Opts) -> i32 {
     let tags = opts.str("tags", "promo,ep");
     let mut rec = Recorder::new(&opts.str("out", "iter.ndjson"));
     rec.avoid = !opts.flag("no-avoid");
+    rec.sys = opts.flag("sys");
     let mut rng = rng(seed, 500 + shard);
     let pos = positions(&roots, &tags, seed, opts.num("walk", 2));
     let mine: Vec<&Board> = pos.iter().enumerate().filter(|(i, _)| (*i as u64) % shards == shard).map(|(_, b)| b).collect();
